@@ -73,7 +73,7 @@ def draw_td_op(rng, name, world):
     length = min((int(e.get("ns", r["ns"])) - 1) * float(e.get("dt", r["dt"])) for e in r["envs"])
     comps = rng.choice([["ns", "ew", "vt"], ["ns", "ew", "vt"], ["vt"], ["ns"], ["ew"], ["ns", "ew"], ["vt", "ns"],
                         ["ew", "vt"], ["vt", "ew", "ns"]])
-    op = {"op": name, "components": comps, "ctype": rng.choice(["tuple", "list"]),
+    op = {"op": name, "components": comps, "ctype": rng.choice(["tuple", "tuple", "list", "list", "iter"]),   # "iterable" per docstring
           "container": rng.choice(["list", "list", "tuple", "generator" if name == "sta_lta" else "list"]),
           "dup": rng.random() < 0.12, "twins": rng.sample(["scale2", "scale", "widen", "conj", "alone", "perm", "repeat"],
                                                          rng.randint(1, 3))}
@@ -104,6 +104,8 @@ def _container(recs, kind):
 def _call(H, name, recs, op, hvsr, container=None, **over):
     a = {**op, **over}
     comps = tuple(a["components"]) if a.get("ctype", "tuple") == "tuple" else list(a["components"])
+    if a.get("ctype") == "iter":
+        comps = iter(comps)                      # a one-shot iterable
     box = _container(recs, container or a.get("container", "list"))
     with warnings.catch_warnings():
         warnings.simplefilter("ignore")
